@@ -632,6 +632,18 @@ def _execute(scn, keep_objects=False, prev_ctx=None):
         except Exception as ex:      # noqa
             ctx.objs.append(None)
             H['build'].append({'ev': 'construct', 'i': i, 'exc': _exc(ex)})
+    # bystanders: other components of the user's program, built after the
+    # scenario's own (state shared between instances would leak from them)
+    ctx.bystanders = []
+    if prev_ctx is None:
+        for spec in scn.get('bystanders', []) or []:
+            try:
+                o = construct(spec)
+                if spec.get('pwm') is not None:
+                    o.pwm = spec['pwm']
+                ctx.bystanders.append(o)
+            except Exception:      # noqa
+                pass
     track_rel = scn.get('track_relations', False)
 
     # -- declarations
